@@ -340,8 +340,18 @@ func (s *Service) updateSubs(wg *sync.WaitGroup) {
 					name: si.Name,
 				}
 				allEntries[se] = true
-				if _, ok := s.subs[se]; ok {
-					continue
+				if cw, ok := s.subs[se]; ok {
+					if cw.mode == si.Mode && equalStrings(cw.destinations, si.Destinations) {
+						continue
+					}
+					// The subscription was dropped and created again with
+					// another mode or other destinations since the last
+					// update: the running writer belongs to the old one.
+					cw.Close()
+					delete(s.subs, se)
+					s.Logger.Info("Replaced changed subscription",
+						logger.Database(se.db),
+						logger.RetentionPolicy(se.rp))
 				}
 				sub, err := s.createSubscription(se, si.Mode, si.Destinations)
 				if err != nil {
@@ -352,6 +362,8 @@ func (s *Service) updateSubs(wg *sync.WaitGroup) {
 				cw := chanWriter{
 					writeRequests: make(chan *coordinator.WritePointsRequest, s.conf.WriteBufferSize),
 					pw:            sub,
+					mode:          si.Mode,
+					destinations:  append([]string(nil), si.Destinations...),
 					pointsWritten: &s.stats.PointsWritten,
 					failures:      &s.stats.WriteFailures,
 					logger:        s.Logger,
@@ -407,9 +419,23 @@ func (s *Service) newPointsWriter(u url.URL) (PointsWriter, error) {
 type chanWriter struct {
 	writeRequests chan *coordinator.WritePointsRequest
 	pw            PointsWriter
+	mode          string // definition the writer was built from
+	destinations  []string
 	pointsWritten *int64
 	failures      *int64
 	logger        *zap.Logger
+}
+
+func equalStrings(a, b []string) bool {
+	if len(a) != len(b) {
+		return false
+	}
+	for i := range a {
+		if a[i] != b[i] {
+			return false
+		}
+	}
+	return true
 }
 
 // Close closes the chanWriter.
